@@ -1,6 +1,6 @@
 """C04 x86-64 JIT-compiled programs behave exactly like interpreted programs."""
 import astq
-from rules import aes, jit, sshash, vmcfg
+from rules import aes, genreset, jit, sshash, vmcfg
 
 LEVEL = 'other'
 TECHNIQUE = 'sibling agreement between the x86 emitters and the interpreter decoder on resolved-AST feature vectors, known-bits on branch constants, decoding of byte templates, assembled-fragment constants'
@@ -27,3 +27,4 @@ def run(ctx, R):
     vmcfg.rule_v2gates(ctx, R, FI)
     aes.rule_asm(ctx, R, FI)
     vmcfg.rule_compose(ctx, R, FI)
+    genreset.rule_gen_reset(ctx, R, 'x86')
